@@ -1,11 +1,11 @@
 """Registry: which units serve which property, the level each property is claimed at, and the manifest texts."""
 REGISTRY = {
-    'C01': ['base_core', 'handles'],
-    'C06': ['base_core', 'handles'],
+    'C01': ['base_core', 'handles', 'connect'],
+    'C06': ['base_core', 'handles', 'connect'],
     'C02': ['core'],
     'C03': ['base_core', 'handles', 'core', 'event', 'strand', 'when'],
     'C04': ['base_core', 'strand', 'event', 'coro_mutex'],
-    'C05': ['thread_pool', 'strand', 'core'],
+    'C05': ['thread_pool', 'strand', 'core', 'handles'],
     'C07': ['strand'],
     'C08': ['thread_pool'],
     'C09': ['when'],
